@@ -258,9 +258,9 @@ def dstep (st : DState) (line : String) : DState × String :=
   | ["encset", field, v] =>
     match st.st, parseCfgOp? st.kind field v with
     | some s, some op =>
-      match encSet s op with
-      | some s' => (⟨st.kind, some s'⟩, s!"M ok {showEnc st.kind s'} || S ok {showInv s'}")
-      | none => (st, s!"M err ValueError {showEnc st.kind s} || S err ValueError {showInv s}")
+      match encStep s op with
+      | (s', true) => (⟨st.kind, some s'⟩, s!"M ok {showEnc st.kind s'} || S ok {showInv s'}")
+      | (s', false) => (⟨st.kind, some s'⟩, s!"M err ValueError {showEnc st.kind s'} || S err ValueError {showInv s'}")
     | _, _ => (st, "bad-op")
   | _ => (st, "bad-op")
 
